@@ -30,7 +30,7 @@ RULE = (
     "every construct boundary, at line start and mid-line where legal; x 4 construction paths. distinct = "
     "(document, fault class, position); non-trivial = the fault lies beyond line 1."
 )
-RULE += " added since: faults on continued control lines, in attribute expressions on a later line of the tag, at the end of multi-line def/block/page/call signatures; the HTML error page's reported line; a faulty template reached through <%include>; quick n=250 documents. anonymous block in <%namespace>, named block in <%call> and in a nested def, two or three lines below the enclosing tag. a duplicate block planted inside the block whose name it repeats, one and two levels down. faults on the 2nd / 3rd line of wrapped def, block, page and call signatures and call expressions."
+RULE += " added since: faults on continued control lines, in attribute expressions on a later line of the tag, at the end of multi-line def/block/page/call signatures; the HTML error page's reported line; a faulty template reached through <%include>; quick n=250 documents. anonymous block in <%namespace>, named block in <%call> and in a nested def, two or three lines below the enclosing tag. a duplicate block planted inside the block whose name it repeats, one and two levels down. faults on the 2nd / 3rd line of wrapped def, block, page and call signatures and call expressions. faults on later lines of wrapped filter lists (expression, def, page, text)."
 ASSUMPTIONS = [
     "CPython's SyntaxError.lineno on the embedded code decides which physical line is 'the offending Python line'",
     "the emitter's line/column counter in checks/c11.py is the reference for positions",
